@@ -1,36 +1,36 @@
 (* C11 - Wheel metadata is read exactly as declared.
-   Only statements, `exact`, and Print Assumptions live here. *)
+   Only statements, `exact`, and Print Assumptions live here.
+   State after the C11 fix campaign (dist-info root pass + re.escape; partition for Name/Version;
+   unfolding of continuation lines).  Still known: Requires-Dist:-looking body lines are read
+   (the suite requires it), '#'/'--'/'' values are dropped by utils.parse_requirements. *)
 From Coq Require Import List String Ascii Bool.
 From RC Require Import lib.PyStr gen.WheelC11Consts model.WheelMetaC11 proofs.WheelMetaC11P.
 Import ListNotations.
 Open Scope string_scope.
 
-(* Inside three decidable guards the line-oriented parser returns exactly the Name, Version and
-   Requires-Dist fields of the RFC 822 header block, for ALL texts. *)
+(* For ALL texts whose body is harmless the parser returns exactly the Name, Version and
+   Requires-Dist fields of the RFC 822 header block (folded fields unfolded, field names in any
+   case, ':' allowed inside values, CRLF or LF). *)
 Theorem C11_headers_partial : forall t,
-  no_headerlike_body t = true -> no_folded t = true -> single_colon_nv t = true ->
-  parse_flat t = select_fields (rfc822_fields t).
+  body_harmless t = true -> parse_flat t = select_fields (rfc822_fields t).
 Proof. exact headers_partial. Qed.
 Print Assumptions C11_headers_partial.
 
-(* Each guard is needed: the unguarded statement is false of the unchanged code. *)
+(* The guard is needed: the unguarded statement is false of the code (known finding). *)
 Theorem C11_headers_refuted_body :
   parse_flat wit_body = FlatOk "a" (Some "1") ["evil"] /\
   select_fields (rfc822_fields wit_body) = FlatOk "a" (Some "1") [].
 Proof. exact headers_refuted_body. Qed.
 Print Assumptions C11_headers_refuted_body.
 
-Theorem C11_headers_refuted_folded :
-  parse_flat wit_folded = FlatOk "a" (Some "1") ["bar"] /\
-  select_fields (rfc822_fields wit_folded) = FlatOk "a" (Some "1") ["bar  >=1.0"].
-Proof. exact headers_refuted_folded. Qed.
-Print Assumptions C11_headers_refuted_folded.
-
-Theorem C11_headers_refuted_colon :
-  parse_flat wit_colon = FlatOk "a" (Some "1") [] /\
-  select_fields (rfc822_fields wit_colon) = FlatOk "a:b" (Some "1") [].
-Proof. exact headers_refuted_colon. Qed.
-Print Assumptions C11_headers_refuted_colon.
+(* The witnesses of the repaired findings (folded Requires-Dist, ':' in Name) are read as declared. *)
+Theorem C11_headers_folded_and_colon_read :
+  parse_flat wit_folded = FlatOk "a" (Some "1") ["bar  >=1.0"] /\
+  parse_flat wit_folded = select_fields (rfc822_fields wit_folded) /\
+  parse_flat wit_colon = FlatOk "a:b" (Some "1") [] /\
+  parse_flat wit_colon = select_fields (rfc822_fields wit_colon).
+Proof. exact headers_folded_and_colon_read. Qed.
+Print Assumptions C11_headers_folded_and_colon_read.
 
 (* The loop never leaves through the (totalised) IndexError exit. *)
 Theorem C11_parse_never_index_error : forall t, parse_flat t <> FlatErr FlatIndexError.
@@ -38,52 +38,58 @@ Proof. exact parse_never_index_error. Qed.
 Print Assumptions C11_parse_never_index_error.
 
 (* Requirement texts reach Requirement.parse unchanged ("nothing dropped, markers and extras
-   intact") when they are plain; otherwise they can be dropped silently. *)
+   intact") when they are plain; otherwise they can be dropped silently (known finding). *)
 Theorem C11_reqs_intact_partial : forall raw, forallb plain_req raw = true -> post_reqs raw = raw.
 Proof. exact reqs_intact_partial. Qed.
 Print Assumptions C11_reqs_intact_partial.
+
+Theorem C11_reqs_intact_parsed : forall t n v raw,
+  parse_flat t = FlatOk n v raw -> forallb plain_value raw = true -> post_reqs raw = raw.
+Proof. exact reqs_intact_parsed. Qed.
+Print Assumptions C11_reqs_intact_parsed.
 
 Theorem C11_reqs_refuted_dropped :
   post_reqs ["six"; "# not a requirement"; "--option"; "six \"; ""] = ["six"; "six"].
 Proof. exact reqs_refuted_dropped. Qed.
 Print Assumptions C11_reqs_refuted_dropped.
 
-(* The wheel's own dist-info directory. *)
+(* The wheel's own dist-info directory: for every project name, version text and member list with
+   exactly one root-level `<project>-*.dist-info/METADATA`, that one is chosen whatever else is
+   vendored below the root and wherever it sits in the archive. *)
 Theorem C11_dist_info_own : forall p v names,
-  conformant_name p = true -> v <> "" -> no_newline v = true ->
+  v <> "" -> no_slash v = true ->
   In (own_entry p v) names ->
-  (forall e, In e names -> e <> own_entry p v -> own_match_p p e = false) ->
+  (forall e, In e names -> e <> own_entry p v -> root_match p e = false) ->
   find_dist_info p (rev names) = Found (own_entry p v).
 Proof. exact dist_info_own. Qed.
 Print Assumptions C11_dist_info_own.
 
 Theorem C11_dist_info_own_exact : forall p v names,
-  conformant_name p = true -> v <> "" -> no_newline v = true ->
+  v <> "" -> no_slash v = true ->
   (find_dist_info p (rev names) = Found (own_entry p v) <->
    exists before after, names = (before ++ own_entry p v :: after)%list /\
-                        forall e, In e after -> own_match_p p e = false).
+                        forall e, In e after -> root_match p e = false).
 Proof. exact dist_info_own_exact. Qed.
 Print Assumptions C11_dist_info_own_exact.
 
-Theorem C11_dist_info_vendored_elsewhere : forall p v names,
-  p <> "" -> all_chars plain_char p = true -> v <> "" -> no_newline v = true ->
-  In (own_entry p v) names ->
-  (forall e, In e names -> e <> own_entry p v -> elsewhere p e = true) ->
-  find_dist_info p (rev names) = Found (own_entry p v).
-Proof. exact dist_info_vendored_elsewhere. Qed.
-Print Assumptions C11_dist_info_vendored_elsewhere.
+(* what "root-level dist-info METADATA of the project" means, as a statement on the member name *)
+Theorem C11_root_match_spec : forall p e,
+  root_match p e = true <->
+  exists mid tail, e = p ++ "-" ++ mid ++ dsuf ++ tail /\ mid <> "" /\ no_slash mid = true /\ tail_ok_s tail.
+Proof. exact root_match_spec. Qed.
+Print Assumptions C11_root_match_spec.
 
-Theorem C11_dist_info_own_refuted :
-  (In (own_entry "vend" "1.0") wit_names_same /\
-   find_dist_info "vend" (rev wit_names_same) = Found "vend/_vendor/vend-0.5.dist-info/METADATA") /\
-  (In (own_entry "foo" "1.0") wit_names_data /\
-   find_dist_info "foo" (rev wit_names_data) = Found "foo-1.0.data/purelib/bar-2.0.dist-info/METADATA").
-Proof. exact dist_info_own_refuted. Qed.
-Print Assumptions C11_dist_info_own_refuted.
+(* The witnesses of the repaired findings (vendored copy of the same project; another project's
+   dist-info under the wheel's .data directory) now read the wheel's own entry. *)
+Theorem C11_dist_info_vendored_read_own :
+  find_dist_info "vend" (rev wit_names_same) = Found (own_entry "vend" "1.0") /\
+  find_dist_info "foo" (rev wit_names_data) = Found (own_entry "foo" "1.0").
+Proof. exact dist_info_vendored_read_own. Qed.
+Print Assumptions C11_dist_info_vendored_read_own.
 
-(* Unreadable wheels are errors, never a distribution. *)
+(* Unreadable wheels are errors, never a distribution (no hypothesis on the file name left). *)
 Theorem C11_unreadable_is_error : forall vok rok basename a,
-  modelled basename -> unreadable basename a ->
+  unreadable basename a ->
   extract_whl vok rok basename a = Err MetadataError \/
   extract_whl vok rok basename a = Err InvalidVersion.
 Proof. exact unreadable_is_error. Qed.
@@ -103,7 +109,8 @@ Print Assumptions C11_ok_only_from_declared.
 (* T1 obligations: the shapes read from /repo are the ones the proofs are about. *)
 Theorem C11_source_shape_pinned :
   c11_branches = [br_name; br_version; br_req] /\ c11_line_sep = nl /\
-  c11_regexes = [(regex_own_text, true); (regex_any_text, false)] /\
+  c11_cont_chars = [" "%char; ascii_of_nat 9] /\ c11_unfold_rstrip = String cr "" /\
+  c11_regexes = [(regex_root_text, true); (regex_own_text, true); (regex_any_text, false)] /\
   c11_project_sep = "-"%char /\ c11_project_idx = 0 /\ c11_namelist_reversed = true /\
   c11_decode_args = ["utf-8"; "ignore"] /\ c11_fetch_handlers = ["zipfile.BadZipfile"] /\
   c11_whl_ext = ".whl" /\ c11_ext_lowered = true /\
@@ -111,32 +118,17 @@ Theorem C11_source_shape_pinned :
 Proof. exact source_shape_pinned. Qed.
 Print Assumptions C11_source_shape_pinned.
 
-(* The property statement on a whole wheel, inside the guards: what extract_metadata returns is
-   the Name/Version/Requires-Dist of the wheel's OWN METADATA read as an RFC 822 message. *)
+(* The property statement on a whole wheel: what extract_metadata returns is the
+   Name/Version/Requires-Dist of the wheel's OWN METADATA read as an RFC 822 message. *)
 Theorem C11_wheel_end_to_end_partial : forall vok rok basename p v es text,
-  project_of basename = Some p -> conformant_name p = true -> v <> "" -> no_newline v = true ->
+  project_of basename = Some p -> v <> "" -> no_slash v = true ->
   In (own_entry p v) (map fst es) ->
-  (forall e, In e (map fst es) -> e <> own_entry p v -> own_match_p p e = false) ->
+  (forall e, In e (map fst es) -> e <> own_entry p v -> root_match p e = false) ->
   read_last (own_entry p v) es = Some (Content text) ->
-  no_headerlike_body text = true -> no_folded text = true -> single_colon_nv text = true ->
+  body_harmless text = true ->
   extract_whl vok rok basename (Zip es) = outcome vok rok (select_fields (rfc822_fields text)).
 Proof. exact wheel_end_to_end_partial. Qed.
 Print Assumptions C11_wheel_end_to_end_partial.
-
-(* For the values the parser itself produced, nothing is dropped or altered on the way to
-   Requirement.parse unless the value is empty, a comment, an option or ends in a backslash. *)
-Theorem C11_reqs_intact_parsed : forall t n v raw,
-  parse_flat t = FlatOk n v raw -> forallb plain_value raw = true -> post_reqs raw = raw.
-Proof. exact reqs_intact_parsed. Qed.
-Print Assumptions C11_reqs_intact_parsed.
-
-(* Sharper body guard: Name:/Version:-looking body lines are harmless when the header block
-   declares that field. *)
-Theorem C11_headers_partial_sharp : forall t,
-  body_harmless t = true -> no_folded t = true -> single_colon_nv t = true ->
-  parse_flat t = select_fields (rfc822_fields t).
-Proof. exact headers_partial_sharp. Qed.
-Print Assumptions C11_headers_partial_sharp.
 
 (* The specification is not vacuous: a METADATA written from any list of well-formed fields,
    followed by any body, is read back as exactly those fields ... *)
@@ -145,10 +137,10 @@ Theorem C11_spec_reads_rendered : forall fs body,
 Proof. exact spec_reads_rendered. Qed.
 Print Assumptions C11_spec_reads_rendered.
 
-(* ... and the code returns exactly the declared Name / Version / Requires-Dist (hypotheses only
-   on what the writer emitted: no ':' in Name/Version, no Requires-Dist:-looking body line). *)
+(* ... and the code returns exactly the declared Name / Version / Requires-Dist (the only
+   hypothesis beyond well-formed fields: no Requires-Dist:-looking line in the body). *)
 Theorem C11_rendered_metadata_read_back : forall fs body,
-  forallb wf_field fs = true -> forallb nv_colon_free fs = true -> body_ok fs body = true ->
+  forallb wf_field fs = true -> body_ok fs body = true ->
   parse_flat (render fs body) = select_fields (map norm_field fs).
 Proof. exact rendered_metadata_read_back. Qed.
 Print Assumptions C11_rendered_metadata_read_back.
